@@ -151,6 +151,8 @@ def check_tree(tree) -> list:
                 out.append(('pseudo-strict-inside-complex', 'pseudo=%r strict=%r but complex=%r' % (ps, st, cx)))
             if cx and (bool(ps) == bool(st)):
                 out.append(('complex-exactly-one', 'complex constraint with pseudo=%r strict=%r' % (ps, st)))
+        for msg in complex_kind_disagreement(tree, c):
+            out.append(('complex-kind', msg))
         parts = call('split_constraint', lambda: split_constraint(c))
         if parts is not None:
             if not parts:
@@ -286,6 +288,8 @@ def batch_family(which, lo, hi, seed):
         trees = family_nnf3(names)
     elif which == 'nnf3not':
         trees = family_nnf3(names[:2], True)
+    elif which == 'both':
+        trees = family_both_sides(names + ['D'])
     elif which == 'random':
         rnd = random.Random(seed)
         trees = [random_deep(rnd, names + ['D'], rnd.randint(3, 4)) for _ in range(hi - lo)]
@@ -408,7 +412,9 @@ def batches(tier, seed):
         b += [('batch_family', ['random', 0, 150, seed * 7 + i]) for i in range(2)]
         n3 = len(family_nnf3(['A', 'B', 'C']))
         b += [('batch_family', ['nnf3', lo, lo + n3 // 6 + 1, seed]) for lo in range(0, n3, n3 // 6 + 1)]
+        b += [('batch_family', ['both', lo, lo + 1800, seed]) for lo in range(0, 7200, 1800)]
     else:
+        b += [('batch_family', ['both', lo, lo + 900, seed]) for lo in range(0, 7200, 900)]
         n2 = len(all_depth2(['A', 'B', 'C']))
         step = n2 // 48 + 1
         b += [('batch_family', ['depth2', lo, lo + step, seed]) for lo in range(0, n2, step)]
@@ -431,3 +437,79 @@ def info(tier):
                                 'names_E1': 'two symbolic names, len<=%d' % (2 if tier == 'quick' else 3)},
                      'stubs': []},
     }
+
+
+# -- reference definition of pseudo- / strict-complex ------------------------------------------------------------
+# "A complex constraint is pseudo-complex when it splits into simple (requires / excludes) constraints only, strict-
+# complex otherwise." The split is the clause set of the constraint's CNF. The reference computes the *raw* clause set
+# (eliminate => / requires / excludes, push negations inwards, distribute OR over AND, nothing simplified away) and
+# answers only where that set is canonical: no clause mentions a feature twice (no tautology, no repeated literal).
+# There every correct distribution procedure yields the same set of clauses, so the answer does not depend on how the
+# library happens to arrange its own conversion. Trees with XOR / EQUIVALENCE are left out (dependency finding).
+
+def _nnf(t, neg=False):
+    if not isinstance(t, tuple):
+        return ('lit', t, not neg)
+    op = t[0]
+    if op == 'NOT':
+        return _nnf(t[1], not neg)
+    if op in ('IMPLIES', 'REQUIRES'):
+        return _nnf(('OR', ('NOT', t[1]), t[2]), neg)
+    if op == 'EXCLUDES':
+        return _nnf(('OR', ('NOT', t[1]), ('NOT', t[2])), neg)
+    if op in ('AND', 'OR'):
+        o = op if not neg else ('OR' if op == 'AND' else 'AND')
+        return (o, _nnf(t[1], neg), _nnf(t[2], neg))
+    raise ValueError(op)
+
+
+def _clauses(n):
+    if n[0] == 'lit':
+        return [[(n[1], n[2])]]
+    if n[0] == 'AND':
+        return _clauses(n[1]) + _clauses(n[2])
+    return [a + b for a in _clauses(n[1]) for b in _clauses(n[2])]
+
+
+def ref_complex_kind(tree):
+    """'pseudo' | 'strict' | None (reference does not answer: not purely and/or/not/implies/requires/excludes, or the raw
+    clause set is not canonical)."""
+    if not isinstance(tree, tuple) or not all(o in (LOGICAL - {'XOR', 'EQUIVALENCE'}) for o in ops_of(tree)):
+        return None
+    cls = _clauses(_nnf(tree))
+    for c in cls:
+        if len({nm for nm, _ in c}) != len(c):
+            return None
+    simple = all(len(c) == 2 and not (c[0][1] and c[1][1]) for c in cls)
+    return 'pseudo' if simple else 'strict'
+
+
+def complex_kind_disagreement(tree, c=None):
+    """[] or a message when the constraint is complex and its pseudo / strict verdicts differ from the reference."""
+    kind = ref_complex_kind(tree)
+    if kind is None:
+        return []
+    c = R.ctc('c', tree) if c is None else c
+    try:
+        if not c.is_complex_constraint():
+            return []
+        ps, st = c.is_pseudocomplex_constraint(), c.is_strictcomplex_constraint()
+    except Exception:
+        return []          # exceptions are reported by check_tree
+    if (ps, st) != (kind == 'pseudo', kind == 'strict'):
+        return ['%r is complex and splits into %s, i.e. it is %s-complex; the predicates say pseudo=%r strict=%r'
+                % (tree, 'requires / excludes clauses only' if kind == 'pseudo' else 'clauses of which one is not a requires / excludes', kind, ps, st)]
+    return []
+
+
+def family_both_sides(names):
+    """(x o1 y) o (z o2 w) over literals and negated literals: compound operands on BOTH sides (the CNF distributes twice)."""
+    lits = list(names) + [('NOT', n) for n in names]
+    out = []
+    for o in ('IMPLIES', 'OR', 'AND', 'EXCLUDES', 'REQUIRES'):
+        for o1 in ('AND', 'OR'):
+            for o2 in ('AND', 'OR'):
+                for x, y, z, w in itertools.product(lits[:4] + lits[len(names):len(names) + 2], repeat=4):
+                    if len({str(x), str(y), str(z), str(w)}) == 4:
+                        out.append((o, (o1, x, y), (o2, z, w)))
+    return out
